@@ -205,7 +205,7 @@ def execute(case, scratch):
         sets['vectors'].add('|'.join([
             str(len(prim)), ','.join(sorted(str(s['layout']['delimiter']) for s in prim)),
             ','.join(sorted(str(s['layout']['has_header'])[0] for s in prim)), ','.join(sorted(s['layout']['decimal'] for s in prim)),
-            ','.join(sorted(s['layout']['sign'] or ('n' if s['layout']['negate_setting'] else '=') for s in prim)),
+            ','.join(sorted((s['layout']['sign'] or '=') + ('n' if s['layout']['negate_setting'] else '') for s in prim)),
             b['rules_kind'], b.get('rule_mode') or 'first_match', 'views' if b.get('views_model') else '-',
             'supp' if any(s['supplemental'] for s in b['sources']) else '-', fault_kind]))
 
